@@ -2423,6 +2423,18 @@ def _match_next(data: bytes, keytype: bytes, public: bool = False) -> \
     return None, (), len(data)
 
 
+def _make_public(handler: Type[SSHKey], key_params: object) -> SSHKey:
+    """Construct a public key, reporting impossible key parameters"""
+
+    try:
+        return handler.make_public(key_params)
+    except KeyImportError:
+        raise
+    except (ValueError, OverflowError):
+        # Well-formed encoding of impossible key parameters
+        raise KeyImportError('Invalid public key') from None
+
+
 def _make_private(handler: Type[SSHKey], key_params: object) -> SSHKey:
     """Construct a private key, reporting impossible key parameters"""
 
@@ -2469,7 +2481,7 @@ def _decode_pkcs1_public(pem_name: bytes, key_data: object) -> SSHKey:
     if key_params is None:
         raise KeyImportError(f'Invalid {pem_name.decode("ascii")} public key')
 
-    return handler.make_public(key_params)
+    return _make_public(handler, key_params)
 
 
 def _decode_pkcs8_private(
@@ -2525,7 +2537,7 @@ def _decode_pkcs8_public(key_data: object) -> SSHKey:
                        handler.pem_name else 'PKCS#8'
             raise KeyImportError(f'Invalid {key_type} public key')
 
-        return handler.make_public(key_params)
+        return _make_public(handler, key_params)
     else:
         raise KeyImportError('Invalid PKCS#8 public key')
 
